@@ -43,6 +43,20 @@ CHECKS = {
         "exhaustive enumeration to a length bound + Hypothesis sequences against a counter model (history invariant)",
         "DESIGN.md 4/C04",
     ),
+    "C02": (
+        "exploration",
+        "Differential testing of AshProtocol.data_received against an independently written byte-at-a-time reference "
+        "decoder: every string up to length 4 (thorough 5) over a 17-symbol reserved-byte-rich alphabet in three receive-buffer "
+        "contexts under all 2^(n-1) chunkings; Hypothesis-built multi-frame streams with inserted/deleted/flipped bytes "
+        "(including control bytes placed inside escape pairs) under generated chunkings; an atheris coverage-guided campaign "
+        "with the same oracle in the target; megabytes of flag-free garbage with a tracemalloc memory bound and a liveness probe. "
+        "Upward deliveries, reset notifications and ACK/NAK numbers written back must equal the reference under one of the "
+        "documented don't-care settings; exceptions escaping data_received are violations.",
+        "Trusted: vlib/refash.StreamDecoder. Equivalence is asserted while residue+chunk <= 1024; the single-read-over-1024 "
+        "class is generated separately and is a listed known finding.",
+        "differential testing against a reference decoder: exhaustive short streams x all chunkings, Hypothesis structured streams, atheris coverage-guided fuzzing",
+        "DESIGN.md 4/C02",
+    ),
 }
 
 NOT_YET = "check not built yet in this session (planned, see DESIGN.md section 4)"
